@@ -145,6 +145,12 @@ Roots(fr) ==
          N("Sum", << L2, N("Product", << M1, A, L2 >>) >>),
          N("Sum", << N("Product", << M1, L2 >>), N("Product", << M1, A >>) >>) }
   \cup (IF fr = "flt" THEN { N("Sum", << L2, N("Product", << K(FltV(-1, 1)), A >>) >>) } ELSE {})
+  \* a multiplicative operand whose text both starts and ends with a parenthesis
+  \* ("(a + b) * (c + d)") still needs its own parentheses under / and %
+  \cup (IF fr = "int"
+        THEN { B(k, A, N("Product", << N("Sum", << x, y >>), N("Sum", << z, L2 >>) >>)) : k \in {"Remainder", "FloorDiv"} }
+             \cup { B("Remainder", L2, N("Product", << B("FloorDiv", x, L2), B("FloorDiv", y, KI(2)) >>)) }
+        ELSE { B("Quotient", A, N("Product", << N("Sum", << z, z >>), N("Sum", << KI(2), KI(2) >>) >>)) })
   \cup Leaves(fr)
   \cup (IF fr = "int"
         THEN UNION { { B(k, p[1], p[2]) : p \in Pairs(k) } : k \in {"FloorDiv", "Remainder", "LShift", "RShift"} }
